@@ -229,28 +229,21 @@ def run(ctx):
         ap = rcall._parent
         part = ap.targets[0].id if isinstance(ap, ast.Assign) and isinstance(ap.targets[0], ast.Name) else None
         ctx.need(part is not None, 'unrecognised construct: recv result is not bound to a name')
-        incs = [n for n in bg.nodes if n.kind == 'stmt' and isinstance(n.stmt, ast.AugAssign) and isinstance(n.stmt.op, ast.Add)
-                and isinstance(n.stmt.target, ast.Name)]
-        inc_cnt = [n for n in incs if n.stmt.target.id == cnt and U(n.stmt.value) == 'len(%s)' % part]
-        msgvars = [n for n in incs if n.stmt.target.id != cnt and isinstance(n.stmt.value, ast.Name) and n.stmt.value.id == part]
-        ctx.check(len(inc_cnt) == 1 and len(msgvars) == 1 and not [n for n in incs if n not in inc_cnt + msgvars]
-                  and all(len([d for d in brd.node_defs[x.id]]) == 1 for x in inc_cnt + msgvars),
-                  'C12.R4', 'KmipSession._receive_bytes|accumulates-exactly-received', bsite,
+        from .c19 import recv_accumulation, returns_message
+        good_acc, msg, joined, inc_cnt, msgvars = recv_accumulation(bg, brd, rb, loops[0], cnt, part)
+        ctx.check(len(inc_cnt) == 1 and len(msgvars) == 1, 'C12.R4', 'KmipSession._receive_bytes|accumulates-exactly-received', bsite,
                   'count += len(chunk) and message += chunk', 'the loop does not add exactly the received chunk to both the count and the message')
         if len(inc_cnt) == 1 and len(msgvars) == 1:
             a, b = inc_cnt[0], msgvars[0]
             same_block = a.stmt._parent is b.stmt._parent
             ctx.check(same_block, 'C12.R4', 'KmipSession._receive_bytes|count-and-message-together', bsite,
                       'count and message are updated in the same block', 'count and message are updated on different paths')
-            # other stores to the two accumulators inside the loop are forbidden
-            msg = b.stmt.target.id
-            other = [n for n in bg.nodes if w in n.loops and n not in (a, b) and any(v in (cnt, msg) for v, d in brd.node_defs[n.id])]
-            ctx.check(not other, 'C12.R4', 'KmipSession._receive_bytes|no-other-accumulator-stores', bsite, 'no other store to the accumulators in the loop',
-                      'accumulators are also modified at %s' % other)
+            ctx.check(good_acc or not same_block, 'C12.R4', 'KmipSession._receive_bytes|no-other-accumulator-stores', bsite, 'no other store to the accumulators in the loop; the message starts empty',
+                      'the accumulators are also modified elsewhere, or the message does not start empty')
             # returned value is the message, under count == size
             for pn, lab in bg.exit.pred:
                 s = pn.stmt
-                okret = isinstance(s, ast.Return) and isinstance(s.value, ast.Name) and s.value.id == msg
+                okret = returns_message(s, msg, joined) if msg else False
                 eq = False
                 for t, l2 in dominating_edges(bg, pn):
                     q = cmp_parts(t.stmt)
@@ -280,20 +273,8 @@ def run(ctx):
     rcalls = [c for n, c in call_nodes(rrg, 'self._receive_bytes')]
     okh = len(rcalls) == 2 and isinstance(rcalls[0].args[0], ast.Constant) and rcalls[0].args[0].value == 8
     hv = rcalls[0]._parent.targets[0].id if okh and isinstance(rcalls[0]._parent, ast.Assign) else None
-    unp = [c for c in ast.walk(rr) if isinstance(c, ast.Call) and (call_name(c) or '').endswith('unpack')]
-    oku = False
-    szv = None
-    if hv and len(unp) == 1:
-        u = unp[0]
-        fmt = u.args[0].value if isinstance(u.args[0], ast.Constant) else None
-        sl = u.args[1] if len(u.args) > 1 else None
-        if fmt in ('!I', '>I') and isinstance(sl, ast.Subscript) and isinstance(sl.value, ast.Name) and sl.value.id == hv and isinstance(sl.slice, ast.Slice):
-            lo = sl.slice.lower.value if isinstance(sl.slice.lower, ast.Constant) else None
-            hi = sl.slice.upper.value if isinstance(sl.slice.upper, ast.Constant) else (8 if sl.slice.upper is None else None)
-            oku = lo == 4 and hi == 8
-        up = u._parent
-        if isinstance(up, ast.Subscript) and isinstance(up.slice, ast.Constant) and up.slice.value == 0 and isinstance(up._parent, ast.Assign):
-            szv = up._parent.targets[0].id
+    from .c19 import frame_length_var
+    oku, szv = frame_length_var(rr, hv)
     ctx.check(okh and oku and szv is not None and isinstance(rcalls[1].args[0], ast.Name) and rcalls[1].args[0].id == szv,
               'C12.R4', 'KmipSession._receive_request|header-and-length', rsite,
               '8-byte header; payload length = big-endian uint32 at bytes 4..8; payload read with that length',
